@@ -4,7 +4,7 @@ from .lib import cz, cbool, clist, coq_mismatches
 LEVEL = "proof"
 META = {
     "category": "proof",
-    "text": "Coq theorems over a model (Go integer widths explicit) of the pc->(line,col) table of internal/compile/compile.go: clip, the delta-encoding loop of fcomp.generate (4-bit pc, 5-bit line, 6-bit column deltas, continuation bit, uint16 packing), Funcode.decodeLNT and the binary search of Funcode.Position. lnt_roundtrip: for ALL instruction lists with uint32 pc and int32 line/col (any deltas, wrap-around included, any length) decodeLNT(encode rows) = the positioned rows; the encoder's inner loop terminates within a proved bound and never panics; position_lookup: the binary search returns the last row with pc' <= pc for every table length; the shift/mask bridge is a complete enumeration of the 65536 field combinations inside Coq. callstack_shape: over an abstract call/step/return/fail event machine mirroring starlark.Call / CallInternal (fr.pc saved before each instruction, push/pop, error wrapped once with a copy of the frame stack) the CallStack attached to the error is exactly the list of active calls, outermost first, each at its pending call / failing instruction. slice_carries_position: the repaired compiler puts the position of '[' on the SLICE instruction for every slice expression (History.v: the code before fix 103924d left it without one). Tie to /repo on every run: the real generate / decodeLNT / Position are run through verif hooks on generated rows (boundary deltas, column jumps of 10^4, line gaps of 10^5, negative and wrapping deltas, thousands of rows) and compared with the model and with the independent specification inside Coq; generated Starlark programs with call chains of depth 1-8 through defs, lambdas, closures, comprehensions, built-in callbacks and 33 kinds of failing operation (variables of every scope read before assignment: local, cell, free variable of an enclosing function read by a nested def/lambda, global), each expression kind placed in 18 syntactic contexts (value, statement, if/elif/while condition bare, negated, inside and/or, parenthesised, conditional-expression test, comprehension filter, call argument, default value, list element), failing stores (x[i] = v, x.f = v, x[i] op= v, x.f op= v, sequence-assignment targets on immutable / frozen / being-iterated receivers) (incl. '+' chains with folded literal runs, argument-binding and recursion-check failures in a fresh callee frame) placed at generator-chosen (line, col) are executed, and EvalError.CallStack / Backtrace() are compared with the positions the generator wrote, before and after a serialisation round trip, and on a cold thread as well as on a thread that ran unrelated deep calls before (the report must not depend on history); freshly loaded programs with big functions are failed in by 8 threads at once (every thread's CallStack must be right); generated call histories with a probe built-in recording thread.CallStack() are replayed through the event machine of Stack.v.",
+    "text": "Coq theorems over a model (Go integer widths explicit) of the pc->(line,col) table of internal/compile/compile.go: clip, the delta-encoding loop of fcomp.generate (4-bit pc, 5-bit line, 6-bit column deltas, continuation bit, uint16 packing), Funcode.decodeLNT and the binary search of Funcode.Position. lnt_roundtrip: for ALL instruction lists with uint32 pc and int32 line/col (any deltas, wrap-around included, any length) decodeLNT(encode rows) = the positioned rows; the encoder's inner loop terminates within a proved bound and never panics; position_lookup: the binary search returns the last row with pc' <= pc for every table length; the shift/mask bridge is a complete enumeration of the 65536 field combinations inside Coq. callstack_shape: over an abstract call/step/return/fail event machine mirroring starlark.Call / CallInternal (fr.pc saved before each instruction, push/pop, error wrapped once with a copy of the frame stack) the CallStack attached to the error is exactly the list of active calls, outermost first, each at its pending call / failing instruction. slice_carries_position: the repaired compiler puts the position of '[' on the SLICE instruction for every slice expression (History.v: the code before fix 103924d left it without one). Tie to /repo on every run: the real generate / decodeLNT / Position are run through verif hooks on generated rows (boundary deltas, column jumps of 10^4, line gaps of 10^5, negative and wrapping deltas, thousands of rows) and compared with the model and with the independent specification inside Coq; generated Starlark programs with call chains of depth 1-8 through defs, lambdas, closures, comprehensions, built-in callbacks and 33 kinds of failing operation (variables of every scope read before assignment: local, cell, free variable of an enclosing function read by a nested def/lambda, global), each expression kind placed in 18 syntactic contexts (value, statement, if/elif/while condition bare, negated, inside and/or, parenthesised, conditional-expression test, comprehension filter, call argument, default value, list element), failing stores (x[i] = v, x.f = v, x[i] op= v, x.f op= v, sequence-assignment targets on immutable / frozen / being-iterated receivers) (incl. '+' chains with folded literal runs, argument-binding and recursion-check failures in a fresh callee frame) placed at generator-chosen (line, col) are executed, and EvalError.CallStack / Backtrace() are compared with the positions the generator wrote, before and after a serialisation round trip, and on a cold thread as well as on a thread that ran unrelated deep calls before (the report must not depend on history), and every error is inspected again after later failures on its thread (an error is a value); freshly loaded programs with big functions are failed in by 8 threads at once (every thread's CallStack must be right); generated call histories with a probe built-in recording thread.CallStack() are replayed through the event machine of Stack.v.",
     "note": "Trusted: Coq kernel + vm_compute; the correspondence harness and its program generator (expected positions are the positions of the operator tokens the generator wrote). Not modelled in Coq: the compiler's setPos discipline (which instruction carries which token's position) and the interpreter loop itself -- both are exercised by the generated programs only. Position tables with decreasing pc are covered by the theorem but not run on the real encoder (2^32/15 entries).",
     "technique": "Coq proof over executable model + differential correspondence (vm_compute) + Spec.v oracle + generated failing programs with known positions",
 }
@@ -231,6 +231,11 @@ def run(ctx):
             ctx.finding(key, what, replay)
         elif not p["bt_ok"]:
             ctx.finding("backtrace:text:%s" % p["fail"], "Backtrace() text does not list the expected frames", replay)
+        if p.get("got_later") != p["got"] or not p.get("bt_later"):
+            ctx.finding("stack:overwritten-by-later-error:%s" % p["fail"],
+                        "an EvalError's CallStack / Backtrace changed after later, unrelated failures on the same thread: first read %s, read again %s"
+                        % (p["got"][-3:], (p.get("got_later") or [])[-3:]),
+                        dict(replay, callstack_read_again_after_later_failures=p.get("got_later")))
         if p.get("got_warm") != p["got"]:
             wd = frames_match(p["got"], p.get("got_warm") or [])
             ctx.finding("stack:depends-on-history:%s" % p["fail"],
